@@ -807,7 +807,7 @@ package larking
 // the Twirp and the negotiated path)
 //@ func (*Mux).encError serves C05 C09 partial panic ghost nil[c.Marshal
 //@   requires m != nil && w != nil && r != nil
-//@   assert at "terr := &twirpError{" [twirp-code-name C05] TwirpNameOK(StatusCodeOf(s), codeStr)
+//@   assert atcall `twirpCodeName(` [twirp-code-name C05] arg0 == StatusCodeOf(s)
 //@   witness verifWitnessTwirpCodes for twirp-code-name
 //@   assert atcall `w.WriteHeader(` [error-status-is-the-mapped-code C05] (StatusCodeOf(s) <= 16 ==> arg0 == HTTPOf(StatusCodeOf(s))) && (StatusCodeOf(s) > 16 ==> arg0 == 500)
 //@   requires [registry] OffersOk(m)
